@@ -103,6 +103,30 @@ class C16(Prop):
             for runner in ("sync", "async"):
                 yield {"program": [g], "known": [["c", 1], ["v", 2], ["o", 5]], "cfg": cfg, "runner": runner, "ops": {"entrypoints": 1, "forced": 1}}
 
+        # (e) entry points on the OUTER graph, a nested graph inside the entered part, and an upstream node that could run on its own
+        # default: after the nested run returns, the outer run is still scoped to its entry points — the caller's value stays
+        for _ in range(2):
+            inner = {"name": "sub", "nodes": [fn("inner", [["v1", None]], ["v2"], {"b": "sum", "k": 1})], "bound": []}
+            nodes = [fn("up", [["seed", {"d": rng.randint(1, 5)}]], ["v0"], {"b": "sum", "k": 0}),
+                     fn("s1", [["v0", None]], ["v1"], {"b": "sum", "k": 1}),
+                     {"name": "sub", "kind": "graph", "inner": 0},
+                     fn("s3", [["v2", None]], ["v3"], {"b": "sum", "k": 1})]
+            rng.shuffle(nodes)
+            g = {"name": "g1", "nodes": nodes, "bound": [], "entrypoints": ["s1"]}
+            cfg = {"onMissing": "ignore", "errMode": "raise", "maxIter": 40}
+            for runner in ("sync", "async"):
+                yield {"program": [inner, g], "known": [["v0", rng.randint(100, 900)]], "cfg": cfg, "runner": runner, "ops": {"entrypoints": 1, "forced": 1}}
+        # (f) produced values whose `==` answers True for everything (wildcard matchers): present is present, whatever they compare equal to
+        for om in ("ignore", "error"):
+            nodes = [fn("a", [["x", None]], ["kept"], {"b": "const", "v": {"anyeq": rng.randint(0, 9)}}), fn("b", [["x", None]], ["n"], {"b": "sum", "k": 1})]
+            rng.shuffle(nodes)
+            g = {"name": "g0", "nodes": nodes, "bound": []}
+            cfg = {"onMissing": om, "errMode": "raise", "maxIter": 40}
+            if rng.random() < 0.5:
+                cfg.update(select=["kept", "n"], selectAsTuple=False, selectAsSet=False, selectAs=None)
+            for runner in ("sync", "async"):
+                yield {"program": [g], "known": [["x", 2]], "cfg": cfg, "runner": runner, "ops": {"select": 1, "forced": 1}, "pyOnly": True}
+
     def cases(self, rng: random.Random, tier: str) -> Iterable[dict]:
         forced = 3
         yield from self._forced_cases(rng)
@@ -333,6 +357,16 @@ class C16(Prop):
                 return f"result value of {k!r} is an internal object ({v})"
             if k.startswith("__"):
                 return f"internal bookkeeping key {k!r} in the result"
+        # (b') completeness: an output inside the effective selection whose producing function node RAN in this completed run is returned
+        if obs["status"] == "completed":
+            have_b = {k for k, _ in obs["values"]}
+            gi_b = len(program) - 1
+            ran_b = {f.split(":", 1)[1] for f, _ in obs.get("calls", []) if f.split(":", 1)[0] == str(gi_b)}
+            for n in root["nodes"]:
+                if n["kind"] == "fn" and n["name"] in ran_b:
+                    for o in n.get("dataOuts", []):
+                        if o in eff and o in outputs and o not in have_b:
+                            return f"node {n['name']!r} ran and the run completed, yet its output {o!r} (inside the effective selection) is not in the result"
         # (c) on_missing
         if obs["status"] == "completed" and sel not in (None, "**"):
             have = {k for k, _ in obs["values"]}
@@ -367,7 +401,7 @@ class C16(Prop):
         return None
 
     def model(self, case: dict, driver: Any) -> Any:
-        if case.get("kind") == "mapwarn":
+        if case.get("kind") == "mapwarn" or case.get("pyOnly"):
             return None
         sel = case["cfg"].get("select")
         if sel is not None and sel != "**":
@@ -386,7 +420,7 @@ class C16(Prop):
         return m
 
     def compare(self, case: dict, i: Any, m: Any) -> str | None:
-        if case.get("kind") == "mapwarn":
+        if case.get("kind") == "mapwarn" or case.get("pyOnly"):
             return None      # warnings of a map are judged against the single runs of the same items (oracle)
         if i.get("invalid_select"):
             # the selection names a non-output: the model rejects it (build-error), the implementation must have rejected the run (oracle)
